@@ -9,6 +9,7 @@ import PaneModel.Lemmas.RoundTripDefs
 import PaneModel.Model.IO
 import PaneModel.Model.Broadcast
 import PaneModel.Model.C3
+import PaneModel.Model.TypingNorm
 /-!
 # Line-protocol driver: one JSON scenario per input line, one JSON result per output line.
 Run with `lake env lean --run Driver.lean` (or as the compiled `driver` executable).
@@ -43,6 +44,13 @@ def parseFlt (j : Json) : P Flt := do
       pure (.fin m k)
     else throw "bad float"
   | _ => throw "bad float"
+
+/-- a union member as the harness sends it: a canonical key, or a JSON array = nested union -/
+partial def parseUMem (j : Json) : P (TypingNorm.UMem String) := do
+  match j with
+  | .str s => pure (.one s)
+  | .arr a => return .nested (← a.toList.mapM parseUMem)
+  | _ => throw "bad union member"
 
 partial def parseVal (j : Json) : P Val := do
   match j with
@@ -944,6 +952,29 @@ def runOp (sc : Scen) (j : Json) : P Json := do
     match C3.linearize cls bases lins with
     | some l => pure (Json.mkObj [("mro", .arr (l.map Json.str).toArray)])
     | none => pure (Json.mkObj [("mro", .null)])
+  | "unionnorm" =>
+    -- `typing`'s normalisation of `Union[...]`: a member is a canonical key (string) or a nested union (array)
+    let ms ← (← jarr (← jfield j "members")).toList.mapM parseUMem
+    pure (Json.mkObj [("norm", .arr ((TypingNorm.normalize id ms).map Json.str).toArray)])
+  | "c3h" =>
+    -- a whole hierarchy, in creation order: [name, [bases]] …; every class is linearised from the MODEL's own linearisations
+    -- of its bases (`object` is given); a class whose merge fails — or one of whose bases failed — has no MRO (`null`)
+    let decls ← (← jarr (← jfield j "classes")).toList.mapM fun d => do
+      let a ← jarr d
+      let nm ← jstr (a[0]!)
+      let bs ← (← jarr (a[1]!)).toList.mapM jstr
+      pure (nm, if bs.isEmpty then ["object"] else bs)   -- `class A: pass` has the implicit base `object`
+    let step := fun (known : List (String × Option (List String))) (d : String × List String) =>
+      let lins := d.2.map fun b => (known.lookup b).getD none
+      let r : Option (List String) :=
+        if lins.any (·.isNone) then none
+        else C3.linearize d.1 d.2 (lins.filterMap id)
+      known ++ [(d.1, r)]
+    let known := decls.foldl step [("object", some ["object"])]
+    pure (Json.mkObj [("mros", .arr ((known.drop 1).map fun (p : String × Option (List String)) =>
+      match p.2 with
+      | some l => Json.arr (l.map Json.str).toArray
+      | none => Json.null).toArray)])
   | _ => throw s!"unknown op {op}"
 
 def handleLine (line : String) : String :=
